@@ -40,7 +40,7 @@ func c13Decorate(rt *rapid.T, label string, n ANameAddr, lrOptional bool) ANameA
 
 func TestC13(t *testing.T) {
 	V.Rule("lab: Route sets of 0-6 entries over 1-6 header lines (',' / ', ' / one per line, odd-case names, any position among the other headers) whose first entry is the listener by address:port, by alias with port, by alias without port (listener on 5060), a near miss (alias without port on a listener not on 5060, listener address with another port, listener port on a foreign host, a name resolving elsewhere) or a plain next hop; entries with token/quoted display names, sip/sips URIs with users, ports, lr in any position, valued and valueless URI parameters, transport=udp|tcp, 0-3 header parameters; keep-next-hop-route in every accepted spelling and via the environment default; UDP and TCP ingress on three listen entries; each route set is sent up to three times (same Route lines; new Call-ID and branch, or the same branch again with the same or another Call-ID). Oracle: reference model - consumed iff port (default 5060) equals the listener's port and host equals its address or resolves to it; hop = first remaining entry; relayed list = input - consumed - (hop unless keep), textually and in order; near misses consume nothing and are themselves the hop. non-trivial = >= 3 entries in >= 2 lines with an alias or near-miss first entry, or entries with header parameters; distinct by message")
-	V.Require("first:alias without port (listener on 5060)", "first:alias without port (listener not on 5060) - near miss", "first:listener address, other port - near miss", "first:listener port on a foreign host - near miss", "first:name resolving to another address - near miss", "first:listener address:port", "first:alias:port", "keep:on", "keep:off", "same route set repeated", "same route set repeated with the same top Via branch", "own consumed", "entries with header parameters", ">=3 entries in >=2 lines")
+	V.Require("first:alias without port (listener on 5060)", "first:alias without port (listener not on 5060) - near miss", "first:listener address, other port - near miss", "first:listener port on a foreign host - near miss", "first:name resolving to another address - near miss", "first:listener address:port", "first:alias:port", "first:alias written with capital letters, as configured", "keep:on", "keep:off", "same route set repeated", "same route set repeated with the same top Via branch", "own consumed", "entries with header parameters", ">=3 entries in >=2 lines")
 	variants := []stdVariant{{Keep: ""}, {Keep: "on"}, {Keep: "Y"}, {Keep: "0"}, {Keep: "", KeepEnv: "true"}, {Keep: "false", KeepEnv: "true"}}
 	var svcs []*stdSvc
 	for _, v := range variants {
@@ -95,6 +95,10 @@ func TestC13(t *testing.T) {
 		L := s.transportOf(g)
 		kind := rapid.IntRange(0, len(c13FirstKinds)-1).Draw(rt, "first")
 		alias := []string{"proxy-a.test", "proxy-b.test", "proxy-c.test"}[g.Entry]
+		if kind == 1 && rapid.Bool().Draw(rt, "alias written with capitals") {
+			alias = []string{"Proxy-A.Corp.test", "Proxy-B.Corp.test", "Proxy-C.Corp.test"}[g.Entry]
+			V.Class("first:alias written with capital letters, as configured")
+		}
 		lr := []AParam{{K: "lr"}}
 		var routes []ANameAddr
 		first := func(u AURI) { routes = append(routes, c13Decorate(rt, "first", ANameAddr{URI: u}, true)) }
